@@ -167,8 +167,23 @@ var("C12", "unlock-in-deferred-closure", LOCKED, "func (l *LockedOrca) Delete(re
 
 # ---------------------------------------------------------------- C13
 mut("C13", "error-edge-without-recovery", BC, "\t\t\t\tif err != nil {\n\t\t\t\t\t// jump to error handling / reconnect / reset\n\t\t\t\t\trecovery = true\n\t\t\t\t\tcontinue readerOuter\n\t\t\t\t}\n\t\t\t\tserverFlags := binary.BigEndian.Uint32(b)", "\t\t\t\tif err != nil {\n\t\t\t\t\tcontinue readerOuter\n\t\t\t\t}\n\t\t\t\tserverFlags := binary.BigEndian.Uint32(b)", "R13.1")
-mut("C13", "recovery-does-not-close-channels", BC, "\t\t\tclose(ch)\n\t\t}\n\n\t\t// true meaning delay", "\t\t}\n\n\t\t// true meaning delay", "R13.2")
+mut("C13", "recovery-does-not-close-channels", BC, "\t\t\tclose(ch)\n\t\t}\n\n\t\t// The batcher may still be writing", "\t\t}\n\n\t\t// The batcher may still be writing", "R13.2")
 mut("C13", "marker-returned-to-caller", BH, "\tif res.err == errRetryRequestBecauseOfConnectionFailure {\n\t\treturn common.GetEResponse{}, common.ErrInternal\n\t}\n", "", "R13.3")
+# the fix of F22: recovery waits for the batcher's per-batch "done" signal before it replaces the stream
+mut("C13", "recovery-does-not-wait-for-batcher", BC, "\t\tc.conn.Close()\n\t\t<-c.written\n", "\t\tc.conn.Close()\n", "R13.14",
+    "F22 again: the batcher reads c.rw while reconnect assigns it; the batch can go out on the new connection")
+mut("C13", "recovery-waits-after-reconnect", BC, "\t\t<-c.written\n\n\t\t// true meaning delay a little bit before trying to connect\n\t\tc.reconnect(true)\n", "\t\t// true meaning delay a little bit before trying to connect\n\t\tc.reconnect(true)\n\t\t<-c.written\n", "R13.14")
+mut("C13", "recovery-waits-without-closing", BC, "\t\tc.conn.Close()\n\t\t<-c.written\n", "\t\t<-c.written\n", "R13.14",
+    "a batcher blocked in the write never signals: the pool never reconnects")
+mut("C13", "reader-leaves-done-signal", BC, "\t\t// the batcher has finished writing this batch (all its replies are in)\n\t\t<-c.written\n", "", "R13.14",
+    "the batcher blocks on the second batch's signal, recovery takes a stale one")
+mut("C13", "batcher-signals-before-write", BC, "\t\t\t// Write out the whole buffer\n\t\t\tn, _ := c.rw.Write(buf.Bytes())", "\t\t\tc.written <- struct{}{}\n\t\t\tn, _ := c.rw.Write(buf.Bytes())", "R13.14")
+mut("C13", "batcher-never-signals", BC, "\t\t\t// done with the connection for this batch\n\t\t\tc.written <- struct{}{}\n", "", "R13.14")
+var("C13", "done-signal-unbuffered", BC, "written: make(chan struct{}, 1),", "written: make(chan struct{}),",
+    "the batcher then waits for the reader before gathering the next batch: slower, same outcomes")
+mut("C14", "reconnect-shares-batcher-rand", BC, "delay := time.Duration(rand.Intn(100))", "delay := time.Duration(c.rand.Intn(100))", "R14.12",
+    "F23 again: *rand.Rand is not safe for concurrent use; batcher and recovery both draw from it")
+mut("C14", "batcher-reads-swapped-stream", BC, "\t\tc.conn.Close()\n\t\t<-c.written\n", "\t\tc.conn.Close()\n", "R14.11")
 mut("C13", "reader-released-before-reconnect", BC, "\t\tc.reconnect(true)\n\t\tc.recovered <- struct{}{}", "\t\tc.recovered <- struct{}{}\n\t\tc.reconnect(true)", "R13.2")
 mut("C13", "drained-batch-channels-not-closed", BC, "\t\tfor ch := range batch.channels {\n\t\t\tclose(ch)\n\t\t}\n\t}\n}", "\t}\n}", "R13.1")
 mut("C13", "reconnect-gives-up", BC, "\t\t\ti++\n\t\t\tcontinue\n\t\t}\n\n\t\tmetrics.IncCounter(MetricBatchConnectionsCreated)", "\t\t\ti++\n\t\t\tif i > connectTries {\n\t\t\t\tbreak\n\t\t\t}\n\t\t\tcontinue\n\t\t}\n\n\t\tmetrics.IncCounter(MetricBatchConnectionsCreated)", "R13.2")
